@@ -1189,10 +1189,12 @@ class ModFn(MethFn):
     RT["rurl"] = (True, "url")
     RT["url"] = (False, "url")
     RT["rstr"] = (True, "str")
+    RT["rstrs"] = (True, "strs")
     CALLEES = dict(MethFn.CALLEES)
     for _n in ("QUOTER", "FRAGMENT_QUOTER", "PATH_QUOTER", "QUERY_QUOTER"):
         CALLEES[_n] = ("Q B " + _n, [("s", "str", None)], "str", False)
     CALLEES["_idna_decode"] = ("idna_decode O", [("raw", "str", None)], "str", True)
+    CALLEES["human_quote"] = ("human_quote", [("s", "str", None), ("unsafe", "str", None)], "str", True)
     CALLEES["normalize_path_segments"] = ("normalize_path_segments", [("segments", "strs", None)], "strs", False)
     CALLEES["from_parts"] = ("from_parts", [("scheme", "str", None), ("netloc", "str", None), ("path", "str", None),
                                             ("query", "str", None), ("fragment", "str", None)], "url", False)
@@ -1232,6 +1234,16 @@ class ModFn(MethFn):
             a, ta = self.expr(e.value, env)
             if ta == "str":
                 return f"(tl {a})", "str"
+        if isinstance(e, ast.Tuple) and not e.elts:
+            return "[]", "strs"
+        if isinstance(e, ast.Call) and isinstance(e.func, ast.Attribute) and e.func.attr == "lstrip" and len(e.args) == 1 and not e.keywords:
+            a, ta = self.expr(e.func.value, env)
+            if ta == "str":
+                return f"(lstrip [{one_char(e.args[0])}] {a})", "str"
+        if isinstance(e, ast.BinOp) and isinstance(e.op, ast.Add) and isinstance(e.left, ast.Constant) and isinstance(e.left.value, str):
+            b, tb = self.expr(e.right, env)
+            if tb == "str":
+                return f"({lit(e.left.value)} ++ {b})", "str"
         # tuple(F(x) for x in xs)
         if isinstance(e, ast.Call) and isinstance(e.func, ast.Name) and e.func.id == "tuple" and len(e.args) == 1 \
                 and isinstance(e.args[0], ast.GeneratorExp) and len(e.args[0].generators) == 1 \
@@ -1372,6 +1384,9 @@ class ModFn(MethFn):
                 and test.left.value.id in getattr(self, "nonempty_checked", ()):
             t = f"(match {test.left.value.id} with x0 :: _ => str_eqb x0 {lit(test.comparators[0].value)} | [] => false end)"
             return t if isinstance(test.ops[0], ast.Eq) else f"(negb {t})"
+        if isinstance(test, ast.Call) and isinstance(test.func, ast.Attribute) and test.func.attr == "endswith" and len(test.args) == 1 \
+                and isinstance(test.func.value, ast.Name) and env.get(test.func.value.id) == "str" and isinstance(test.args[0], ast.Constant):
+            return f"(endswith {lit(test.args[0].value)} {test.func.value.id})"
         if isinstance(test, ast.Name) and env.get(test.id) == "strs":
             return f"(match {test.id} with [] => false | _ :: _ => true end)"
         if isinstance(test, ast.Compare) and len(test.ops) == 1 and isinstance(test.ops[0], ast.Eq) and isinstance(test.left, ast.Name) \
@@ -1458,6 +1473,43 @@ class ModFn(MethFn):
         return super().branch(test, env, then_k, else_k)
 
     def stmts(self, body, env, rec):
+        # if TYPE_CHECKING: assert ...
+        if body and isinstance(body[0], ast.If) and ast.unparse(body[0].test) == "TYPE_CHECKING" and not body[0].orelse \
+                and all(isinstance(x, ast.Assert) for x in body[0].body):
+            return self.stmts(body[1:], env, rec)
+        # x = human_quote(<Optional[str]>, "lit")      (None stays None)
+        if body and isinstance(body[0], ast.Assign) and len(body[0].targets) == 1 and isinstance(body[0].targets[0], ast.Name) \
+                and isinstance(body[0].value, ast.Call) and isinstance(body[0].value.func, ast.Name) and body[0].value.func.id == "human_quote" \
+                and len(body[0].value.args) == 2 and not body[0].value.keywords and self.fallible:
+            binds = []
+            arg0 = self.hoist(body[0].value.args[0], env, binds)
+
+            def fin(e1, st=body[0], rest=body[1:]):
+                a, ta = self.expr(arg0, e1)
+                u, tu = self.expr(st.value.args[1], e1)
+                if tu != "str" or ta not in ("str", "optstr"):
+                    raise Untranslatable("human_quote of " + str(ta))
+                head, rt = ("hq_opt", "optstr") if ta == "optstr" else ("human_quote", "str")
+                e2 = dict(e1)
+                e2[st.targets[0].id] = rt
+                return f"(match {head} {a} {u} with Err e => Err e | Ok {st.targets[0].id} => {self.stmts(rest, e2, rec)} end)"
+            return self.with_binds(binds, env, fin)
+        # q = "&".join("{}={}".format(human_quote(k, Q), human_quote(v, Q)) for k, v in self.query.items())
+        if body and isinstance(body[0], ast.Assign) and len(body[0].targets) == 1 and isinstance(body[0].targets[0], ast.Name) \
+                and self.fallible and ast.unparse(body[0].value).startswith("'&'.join(('{}={}'.format(human_quote(k, ") \
+                and ast.unparse(body[0].value).endswith(") for k, v in self.query.items()))"):
+            call = body[0].value.args[0].elt          # '{}={}'.format(human_quote(k, Q), human_quote(v, Q))
+            a1, a2 = call.args
+            if not (ast.unparse(a1.args[0]) == "k" and ast.unparse(a2.args[0]) == "v" and isinstance(a1.args[1], ast.Constant)
+                    and isinstance(a2.args[1], ast.Constant) and a1.args[1].value == a2.args[1].value):
+                raise Untranslatable("statement " + ast.unparse(body[0])[:80])
+            qset = lit(a1.args[1].value)
+            x = body[0].targets[0].id
+            e1 = dict(env)
+            e1[x] = "str"
+            return (f"(match mapM (fun kv : str * str => match human_quote (fst kv) {qset} with Err e => Err e | Ok k => "
+                    f"match human_quote (snd kv) {qset} with Err e => Err e | Ok v => Ok (k ++ [61] ++ v) end end) (query_pairs self) with "
+                    f"Err e => Err e | Ok qs0 => (let {x} : str := join [38] qs0 in {self.stmts(body[1:], e1, rec)}) end)")
         # return f(x)  for a callee that may raise
         if body and isinstance(body[0], ast.Return) and isinstance(body[0].value, ast.Call) and isinstance(body[0].value.func, ast.Name) \
                 and body[0].value.func.id in self.CALLEES and self.CALLEES[body[0].value.func.id][3] and self.fallible:
@@ -1922,6 +1974,17 @@ class PinnedFn:
             "Definition gen_idna_encode (host : str) : result str :=\n"
             "  match o_idna2008_enc O host with\n  | Some r => Ok r\n"
             "  | None => match o_idna2003_enc O host with Some r => Ok (lower_ascii r) | None => Err ValueError end\n  end."),
+        "human_quote": (
+            "def human_quote(s: Union[str, None], unsafe: str) -> Union[str, None]:\n    if not s:\n        return s\n"
+            "    for c in '%' + unsafe:\n        if c in s:\n            s = s.replace(c, f'%{ord(c):02X}')\n"
+            "    if s.isprintable():\n        return s\n    return ''.join((c if c.isprintable() else quote(c) for c in s))",
+            "Definition gen_human_quote (s : str) (unsafe : str) : result str :=\n"
+            "  match s with\n  | [] => Ok []\n  | _ =>\n"
+            "      let s := fold_left (fun acc c => if mem c acc then replace_cp c (pct c) acc else acc) (37 :: unsafe) s in\n"
+            "      if forallb py_isprintable s then Ok s\n      else\n"
+            "        do ps <- mapM (fun c => if py_isprintable c then Ok [c]\n"
+            "                                else if is_sur c then Err ValueError\n"
+            "                                else Ok (flat_map pct (utf8 c))) s;\n        Ok (concat ps)\n  end."),
         "_idna_decode": (
             "@lru_cache(_DEFAULT_IDNA_SIZE)\ndef _idna_decode(raw: str) -> str:\n    try:\n        return idna.decode(raw.encode('ascii'))\n"
             "    except UnicodeError:\n        return raw.encode('ascii').decode('idna')",
@@ -1953,6 +2016,8 @@ SOURCES = [
       ("make_netloc", "(q : str -> str) (user password host : option str) (port : option N) (encode : bool) : str", "[]", {"QUOTER": "q"})]),
     ("_parse.py", "NetlocGen", "From Yarl Require Export Base.PyStr Generated.Tables Model.Parse Model.Host Model.Url.", (),
      [("split_netloc", "(netloc : str) : result (option str * option str * option str * option N)", "Err OtherError", "parse")]),
+    ("_quoters.py", "QuotersGen", "From Yarl Require Export Base.PyStr Base.Utf8 Generated.Tables Model.Parse Model.Host Model.Url.", (),
+     [("human_quote", "(s unsafe : str) : result str", "Err OtherError", "pinned")]),
     ("_url.py", "HostGen",
      "From Yarl Require Export Base.PyStr Generated.Tables Model.Parse Model.Host.\nSection G.\nVariable O : oracles.", (),
      [("_idna_encode", "(host : str) : result str", "Err OtherError", "pinned"),
@@ -2013,7 +2078,10 @@ SOURCES = [
       ("URL.raw_suffix", "(self : url) : result str", "Err OtherError", "mod", "rstr"),
       ("URL.with_suffix", "(self : url) (suffix : str) (keep_query keep_fragment : bool) : result url", "Err OtherError", "mod", "rurl"),
       ("URL.name", "(self : url) : result str", "Err OtherError", "mod", "rstr"),
-      ("URL.suffix", "(self : url) : result str", "Err OtherError", "mod", "rstr")]),
+      ("URL.suffix", "(self : url) : result str", "Err OtherError", "mod", "rstr"),
+      ("URL.raw_suffixes", "(self : url) : result (list str)", "Err OtherError", "mod", "rstrs"),
+      ("URL.suffixes", "(self : url) : result (list str)", "Err OtherError", "mod", "rstrs"),
+      ("URL.human_repr", "(self : url) : result str", "Err OtherError", "mod", "rstr")]),
 ]
 
 
